@@ -204,9 +204,9 @@ def check_button(report: Report, tier: str) -> dict:
 
     maxlen = 8 if tier == "thorough" else 6
     n = 0
-    alphabet = [0, 1] if tier != "thorough" else [0, 1, True, 2]
+    alphabet = [0, 1, 2, 0.5] if tier != "thorough" else [0, 1, True, 2, 0.5, "down", ""]
     for length in range(0, maxlen + 1):
-        for seq in itertools.product(alphabet if length <= 5 else [0, 1], repeat=length):
+        for seq in itertools.product(alphabet if length <= (5 if tier == "thorough" else 4) else [0, 1], repeat=length):
             for mode in ("provider", "set_pressed"):
                 n += 1
                 clicks: List[int] = []
@@ -289,7 +289,7 @@ def check_pot_ultra(report: Report, tier: str) -> dict:
     from Reduino.Sensors import Potentiometer, Ultrasonic
 
     n = 0
-    pot_vals = [-1, 0, 1, 512, 1023, 1024, 5000, -1e-9, 1023.0000001]
+    pot_vals = [-1, 0, 1, 512, 1023, 1024, 5000, -1e-9, 1023.0000001, 512.5, 0.25, 900.0, 1022.999, True]
     for seq in itertools.chain.from_iterable(itertools.product(pot_vals, repeat=k) for k in range(1, (4 if tier == "thorough" else 3))):
         n += 1
         it = iter(seq)
@@ -299,7 +299,8 @@ def check_pot_ultra(report: Report, tier: str) -> dict:
                 got, exc = pot.read(), None
             except Exception as e:  # noqa: BLE001
                 got, exc = None, e
-            ok = (isinstance(exc, ValueError)) if (v < 0 or v > 1023) else (exc is None and got == v)
+            # an in-range reading is returned as the integer the ADC would deliver (non-integral providers are truncated)
+            ok = (isinstance(exc, ValueError)) if (v < 0 or v > 1023) else (exc is None and got == int(v))
             if not ok:
                 hist = [("values", tuple(seq), {})]
                 msg = f"read #{i} with provider value {v}: got {got!r} exc {exc!r}"
